@@ -13,7 +13,10 @@ RULE = ("S->C: TLC enumerates the value-class partition of JsonForms (every gene
         "accepted iff the text is well-formed per the specification's RFC 8259 recogniser, there is no error and the value "
         "read back equals the value (per-type equality; the excluded AddrVar class is free); a decode of a foreign document is "
         "accepted iff it is an error or an ok parse of a well-formed document, and - when the document is byte-for-byte the encoder's "
-        "text for an in-domain value - iff it is ok and equal to that value; Panic has no action. Accepted documents that encode no "
+        "text for an in-domain value - iff it is ok and equal to that value; Sequences of documents (TLC: every ordered pair of different classes of a type; driver: random chains incl. null / foreign documents) "
+        "are decoded into ONE reused variable and into the reused elements of a slice; a step is accepted iff the full structural state of the "
+        "target (all exported fields, also Value under Exists=false and non-selected constructors) equals what a fresh decode of that document "
+        "gives (JsonForms 4b: the value after decoding d is Denote(d), whatever the target held). Panic has no action. Accepted documents that encode no "
         "value of the type (out-of-range numerals etc.) are counted as observations only. distinct = distinct (type, value) round trips + distinct (type, document) decodes.")
 
 INT = {"uint", "int", "varuint", "grams", "signedcoins", "magic"}
@@ -151,7 +154,35 @@ def dec_key(e):
     return "C20:%s:%s" % (fam(name), dec_reason(ty, e))
 
 
+def seq_class(ty, name, val):
+    """Class of one document of a reused-target sequence: constructor / sign / presence, deliberately coarse."""
+    if val is None:
+        return "foreign"
+    t = ty["t"]
+    if t == "maybe":
+        return "absent" if val["ex"] == 0 else "present"
+    if t in ("inbody", "outbody"):
+        return "Empty" if val["sum"] == "" else "Unknown" if val["sum"] == "Unknown" else "Known"
+    tl, cl = val_class(ty, name, val)
+    return tl if t == "addr" else cl
+
+
+def seq_key(e):
+    """Input class of a reused-target step: the type and the class of the NEW document (what the target held before is
+    in the replay file; a decoder that keeps state fails for every non-fresh predecessor alike)."""
+    ty, name = e["ty"], e["name"]
+    label = "Maybe[T]" if ty["t"] == "maybe" else fam(name)
+    cls = seq_class(ty, name, e.get("val"))
+    if cls == "foreign" and ty["t"] in ("inbody", "outbody") and bytes.fromhex(e["doc"]) in (b"{}", b"null"):
+        cls = "Empty"       # the two other spellings of the empty body
+    if cls == "foreign" and ty["t"] == "maybe" and bytes.fromhex(e["doc"]) == b"null":
+        cls = "absent"
+    return "C20:%s:reused-target:%s" % (label, cls)
+
+
 def key_of(e):
+    if e["k"] == "Seq":
+        return seq_key(e)
     if e["k"] == "RT" or (e["k"] == "Panic" and e.get("op") in ("marshal", "dump") and "val" in e) or (e["k"] == "Panic" and "val" in e):
         return rt_key(e) + (":panic" if e["k"] == "Panic" else "")
     return dec_key(e)
@@ -162,6 +193,10 @@ def describe(e):
         b = bytes.fromhex(h or "")
         s = b[:160].decode("latin-1")
         return json.dumps(s) + ("..." if len(b) > 160 else "")
+    if e["k"] == "Seq":
+        return "%s: document %s decoded into a reused %s that held the value of %s gives %s (%s), a fresh decode gives %s (%s)" % (
+            e["name"], txt(e["doc"]), "slice element" if e["how"] == "slice" else "variable", txt(e.get("prevdoc")) if e.get("prevdoc") else "a fresh target",
+            short(e["after"]), e["res"], short(e["fresh"]), e["freshres"])
     if e["k"] == "RT":
         return "%s value %s: text %s, err=%r, read back %s" % (e["name"], short(e["val"]), txt(e.get("text")), e["err"], short(e.get("back")))
     if e["k"] == "Panic":
@@ -176,6 +211,10 @@ def short(x):
 
 def vector_of(e):
     """A vector that re-executes the event through `vh replay C20` (None if the value cannot be rebuilt)."""
+    if e["k"] == "Seq" or (e["k"] == "Panic" and "before" in e):
+        if "prev" not in e or "val" not in e or (e["ty"]["t"] in ("inbody", "outbody") and any(x["sum"] not in ("", "Unknown") for x in (e["prev"], e["val"]))):
+            return None
+        return {"k": "Seq", "ty": e["ty"], "cls": "replay", "vals": [e["prev"], e["val"]]}
     if e["k"] == "RT" or (e["k"] == "Panic" and "val" in e):
         if e["ty"]["t"] in ("inbody", "outbody") and e["val"]["sum"] not in ("", "Unknown"):
             return None
@@ -215,7 +254,7 @@ def judge(ck, path, name):
     """Validate one recorded trace with JsonForms_Trace. Returns (events, rejected events with their line)."""
     jp, _ = strip_begin(path)
     res, rejected = ck.validate_segments("JsonForms_Trace", "trace/JsonForms_Trace.cfg", jp, timeout=2400, name=name, heap_gb=4)
-    diag = [t for t in res.tuples("OOD")] + [t for t in res.tuples("WFDIFF")]
+    diag = [t for t in res.tuples("OOD")] + [t for t in res.tuples("WFDIFF")] + [t for t in res.tuples("SEQBROKEN")]
     evs = [json.loads(l) for l in open(jp + ".tlc")]
     if diag:
         t = diag[0]
@@ -283,6 +322,7 @@ def run(ck):
     ck.extra["types"] = len(gotypes)
     ck.extra["vectors_rt"] = sum(1 for v in vecs if v["k"] == "RT")
     ck.extra["vectors_outside_docs"] = sum(1 for v in vecs if v["k"] == "Dec")
+    ck.extra["vectors_reuse_pairs"] = sum(1 for v in vecs if v["k"] == "Seq")
     ck.extra["vectors_mutation_bases"] = sum(1 for v in vecs if v.get("mut") == 1)
     ck.extra["model_leads"] = leads
     for l in leads:
@@ -318,8 +358,8 @@ def run(ck):
 
     # ---- judge every trace with TLC
     results = vlib.parallel(lambda t: judge(ck, t[2], "%s%02d" % (t[0], t[1])), traces, n=8)
-    seen_rt, seen_dec = set(), set()
-    nrt = ndec = nrej = 0
+    seen_rt, seen_dec, seen_seq = set(), set(), set()
+    nrt = ndec = nrej = nseq = 0
     pending = []
     nexcl = 0
     for (kind, i, out), (evs, rej) in zip(traces, results):
@@ -333,6 +373,9 @@ def run(ck):
             elif e["k"] in ("Dec", "Direct"):
                 ndec += 1
                 seen_dec.add((e["name"], e["doc"], e["k"]))
+            elif e["k"] == "Seq":
+                nseq += 1
+                seen_seq.add((e["name"], e.get("prevdoc", ""), e["doc"], e["how"]))
         for line, e in rej:
             nrej += 1
             pending.append((e["ty"]["t"] in ("maybe", "any"), kind != "vec", len(json.dumps(e)), os.path.basename(out), line, e))
@@ -350,6 +393,7 @@ def run(ck):
         raise Infra("types without a judged round trip: %s" % sorted(missing)[:8])
     ck.extra["round_trips_judged"] = nrt
     ck.extra["decodes_judged"] = ndec
+    ck.extra["reused_target_steps_judged"] = nseq
     ck.extra["events_rejected"] = nrej
     tot = {}
     for nm, o in OBS.items():
@@ -369,7 +413,7 @@ def run(ck):
     ck.sample({"direction": "C->S mutated", "event": trim(next(e for e in results[shards][0] if e["k"] == "Dec" and e["mut"] == "subst"))})
 
     canaries(ck, results, traces)
-    return ck.finish(rule=RULE, distinct=len(seen_rt) + len(seen_dec))
+    return ck.finish(rule=RULE, distinct=len(seen_rt) + len(seen_dec) + len(seen_seq))
 
 
 def kind_count(results, k):
@@ -409,6 +453,12 @@ def canaries(ck, results, traces):
     e["back"] = flip(e["back"]); cases.append(("Dec: the encoder's own text read as another integer", e))
     e = pick(lambda e: e["k"] == "Dec" and e["res"] == "ok" and "encof" in e and e["ty"]["t"] == "addr" and e["encof"]["kind"] == "std" and e["encof"]["any"] == 0)
     e["res"] = "err"; e["back"] = ""; cases.append(("Dec: the encoder's own text refused", e))
+    e = pick(lambda e: e["k"] == "Seq" and e["res"] == "ok" and e["ty"]["t"] == "maybe" and e["step"] > 1 and e["how"] == "var" and e.get("val", {}).get("ex") == 0 and e["before"] != e["fresh"])
+    e["after"] = e["before"]; cases.append(("Seq: the reused target keeps its old state", e))
+    e = pick(lambda e: e["k"] == "Seq" and e["res"] == "ok" and e["ty"]["t"] == "addr" and e["how"] == "slice")
+    e["after"] = e["after"].replace("SumType:", "SumType:\"x\"+", 1); cases.append(("Seq: reused slice element differs from a fresh decode", e))
+    e = pick(lambda e: e["k"] == "Seq" and e["res"] == "err" and e["freshres"] == "err")
+    e["res"] = "ok"; cases.append(("Seq: a refused document is accepted by the reused target", e))
     e = pick(lambda e: e["k"] == "Dec" and e["res"] == "err")
     e["k"] = "Panic"; cases.append(("Panic event", e))
     e = pick(lambda e: e["k"] == "RT" and "canon" in e and e["err"] == "")
